@@ -451,9 +451,11 @@ def fam_scalars() -> Iterator[dict]:
     both operand orders x a scalar of every kind (negative / non-finite / signed-zero
     Python numbers, NumPy scalars of several types incl. non-finite single precision),
     on a float64, an int64 and a float32 array; where() and full() with such a scalar."""
-    arrs = [{"name": "x", "shape": [3], "dtype": "f8", "kind": "ph", "data": [1.0, 2.0, 3.0]},
+    # (a NEGATIVE entry in the float arrays: as an exponent it tells (-0.0)**y = +inf from
+    # -(0.0**y) = -inf, which differ in more than the sign of a zero)
+    arrs = [{"name": "x", "shape": [3], "dtype": "f8", "kind": "ph", "data": [1.0, 2.0, -2.0]},
             {"name": "k", "shape": [3], "dtype": "i8", "kind": "ph", "data": [1, 2, 3]},
-            {"name": "h", "shape": [3], "dtype": "f4", "kind": "ph", "data": [1.0, 2.0, 3.0]}]
+            {"name": "h", "shape": [3], "dtype": "f4", "kind": "ph", "data": [1.0, 2.0, -2.0]}]
     ops = ("add", "sub", "mul", "truediv", "floordiv", "mod", "pow", "maximum", "minimum",
            "lt", "ge", "eq", "ne")
     for arr in arrs:
